@@ -49,3 +49,12 @@ func (v *VerifWorkerC06) Build() *types.Block {
 		return nil
 	}
 }
+
+// LastGasPool returns what is left in the block gas pool of the environment of
+// the last commitNewWork (read-only).
+func (v *VerifWorkerC06) LastGasPool() (uint64, bool) {
+	if v.w.current == nil || v.w.current.gasPool == nil {
+		return 0, false
+	}
+	return v.w.current.gasPool.Gas(), true
+}
